@@ -14,7 +14,7 @@ import random
 
 from ..common import Run, exc_class, MachineryError, quiet_pygaps
 from .. import tlc
-from ..units_common import Atoms, enc, dec, sparse, n2, custom_adsorbate, custom_material, ratio_of, close, reference_constants
+from ..units_common import late_material, rebound_material, Atoms, enc, dec, sparse, n2, custom_adsorbate, custom_material, ratio_of, close, reference_constants
 
 PID = "C01"
 TOL = 1e-9
@@ -158,6 +158,16 @@ def main(tier, seed):
                 run.violation({"site": "unit table", "kind": kind, "unit": u, "observed": "table entry differs from SI definition",
                                "observed_over_expected": _fmt(rel / d["value"])},
                               {"table": float(tab[u]), "reference": d["value"], "tol": d["tol"]})
+        # spellings of one physical unit (equal SI definition) must carry the very same table entry:
+        # converting between them is the identity, whatever rounding the table uses
+        names = [u for u in ref[kind] if u in tab]
+        for i, u in enumerate(names):
+            for v in names[i + 1:]:
+                if ref[kind][u]["value"] == ref[kind][v]["value"]:
+                    run.count(("alias", kind, u, v))
+                    if not close(float(tab[u]), float(tab[v]), 1e-13):
+                        run.violation({"site": "unit table", "kind": kind, "unit": u, "other": v, "observed": "two spellings of the same unit carry different table entries"},
+                                      {"table": [float(tab[u]), float(tab[v])]})
     tu = cu._TEMPERATURE_UNITS
     run.count(("table", "temp"))
     if not (set(tu) == {"K", "°C"} and abs(tu["°C"] - 273.15) < 1e-12 and abs(tu["K"] + 273.15) < 1e-12):
@@ -184,6 +194,9 @@ def main(tier, seed):
     n_base = len(ads_list)
     ads_list += shared_t
     mat = custom_material()
+    # materials whose density / molar mass arrived after construction (properties dictionary edited; isotherm built from a
+    # dictionary naming a registered material): the conversion must use the material's current values
+    mat_list = [mat, late_material(), rebound_material()]
     if thorough:
         extra = []
         for a in pygaps.ADSORBATE_LIST:
@@ -201,8 +214,8 @@ def main(tier, seed):
     # ---- 2. records
     recs = []   # (record, fixture index)
 
-    def add(kind, f, t, m, fix=0):
-        recs.append(({"k": kind, "f": list(f), "t": list(t), "m": list(m)}, fix))
+    def add(kind, f, t, m, fix=0, mi=0):
+        recs.append(({"k": kind, "f": list(f), "t": list(t), "m": list(m)}, (fix, mi)))
 
     g = ("mass", "g")
     for f in P:
@@ -227,13 +240,15 @@ def main(tier, seed):
             add("P", f, t, g, 0)
     repu = ("mmol", "cm3(STP)", "g", "kg", "cm3", "L", "none", "empty", "bogus")
     degL = [(b, u) for b in ("mass", "molar", "volume_gas", "volume_liquid", "fraction", "percent", "none", "empty", "bogus") for u in repu]
-    degMat = [("mass", "g"), ("volume", "cm3"), ("molar", "mol"), ("none", "none"), ("bogus", "g"), ("mass", "none"), ("mass", "cm3")]
+    # incl. names of the wrong kind: a loading basis where a material basis is expected is an unknown material basis
+    degMat = [("mass", "g"), ("volume", "cm3"), ("molar", "mol"), ("none", "none"), ("bogus", "g"), ("mass", "none"), ("mass", "cm3"),
+              ("volume_gas", "cm3"), ("volume_liquid", "mL"), ("fraction", "g"), ("percent", "none"), ("molar", "g"), ("volume", "cm3(STP)")]
     for f in degL:
         for t in degL:
             fr = f[0] in ("fraction", "percent") or t[0] in ("fraction", "percent")
             for m in (degMat if fr else degMat[:1]):
                 add("L", f, t, m, 0)
-    degM = [(b, u) for b in ("mass", "molar", "volume", "none", "empty", "bogus") for u in repu]
+    degM = [(b, u) for b in ("mass", "molar", "volume", "none", "empty", "bogus", "volume_gas", "volume_liquid", "fraction") for u in repu]
     for f in degM:
         for t in degM:
             add("M", f, t, g, 0)
@@ -244,6 +259,13 @@ def main(tier, seed):
         rest = [r for r in tail if r[0]["k"] == "L"]
         rng.shuffle(rest)
         recs = head + keep + rest[: len(rest) // 2]
+    # material sweep: every inter-basis material pair for the materials whose properties arrived late
+    for mi in range(1, len(mat_list)):
+        reps_m = M if thorough else [("mass", "g"), ("mass", "kg"), ("volume", "cm3"), ("volume", "L"), ("molar", "mol"), ("molar", "mmol")]
+        for f in reps_m:
+            for t in reps_m:
+                if f[0] != t[0]:
+                    add("M", f, t, g, 0, mi)
     if len(ads_list) > 2:
         # backend sweep: the pairs that consult the backend, for every backend-linked adsorbate
         # (interleaved over the adsorbates so that consecutive calls hit different adsorbates)
@@ -258,15 +280,16 @@ def main(tier, seed):
     answers = tlc.oracle("UnitsOracle", [r for r, _ in recs], timeout=1200)
     atom_cache = {}
     forms = value_forms(rng)
-    for (r, fi), ans in zip(recs, answers):
+    for (r, (fi, mi)), ans in zip(recs, answers):
         name, ads, temp = ads_list[fi]
-        if fi not in atom_cache:
-            atom_cache[fi] = Atoms(ads, temp, mat)
-        atoms = atom_cache[fi]
+        mat = mat_list[mi]
+        if (fi, mi) not in atom_cache:
+            atom_cache[(fi, mi)] = Atoms(ads, temp, mat)
+        atoms = atom_cache[(fi, mi)]
         site = {"P": "c_pressure", "L": "c_loading", "M": "c_material"}[r["k"]]
         obs = observe(r["k"], r["f"], r["t"], r["m"], forms, ads, temp, mat)
         nontrivial = not (r["f"] == r["t"])
-        run.count((r["k"], tuple(r["f"]), tuple(r["t"]), tuple(r["m"]), fi), nontrivial=nontrivial, n=len(obs))
+        run.count((r["k"], tuple(r["f"]), tuple(r["t"]), tuple(r["m"]), fi, mi), nontrivial=nontrivial, n=len(obs))
         judge(run, site, r["k"], r["f"], r["t"], r["m"], ans, obs, atoms)
         if nontrivial and len(run.cov["samples"]) < 4 and rng.random() < 0.001:
             run.sample({"call": site, "from": r["f"], "to": r["t"], "mat": r["m"], "adsorbate": name,
@@ -298,6 +321,7 @@ def main(tier, seed):
     # ---- 4. triples on the real code (composition == direct), numerically
     ntri = 20000 if thorough else 2500
     name, ads, temp = ads_list[0]
+    mat = mat_list[0]
     val = numpy.array([0.37, 12.5])
     done = 0
     allL = [(f, t, c) for f in L for t in L for c in L]
